@@ -1444,8 +1444,12 @@ def transform(fn, proceed, to_instrument=True, set_conformer=True):
     actual_fn.__ptera_token__ = fnsym
     # The reference string of fn also stands for its tooled copies: @tooled
     # leaves the name bound to the copy, and nothing else to find it by
-    copies = fn.__dict__.setdefault("__ptera_copies__", weakref.WeakSet())
-    copies.add(actual_fn)
+    from .overlay import _tooling_lock
+
+    with _tooling_lock:
+        # (a reference may be being resolved by another thread)
+        copies = fn.__dict__.setdefault("__ptera_copies__", weakref.WeakSet())
+        copies.add(actual_fn)
     return actual_fn
 
 
